@@ -246,6 +246,7 @@ def step (s : St) (toks : List String) : Option (St × String × String) :=
       let abs := s.absContent.filter (keep.contains ·)
       -- strays are garbage by definition
       some ({ s with st := st', absContent := abs, view := none }, showU r, "ok")
+  | ["gcpartial"] => some (s, "consistent", "consistent")   -- runtime comparison live vs reopened after an interrupted GC
   | ["gcfail"] => some (s, "err", "err")     -- a GC that returned an error: nothing changed
   | ["reopen"] =>
       let st' := { s.st.reopen c s.fuel with autoSave := s.st.autoSave, autoGC := s.st.autoGC }
